@@ -136,6 +136,8 @@ var controlTable = []control{
 	{"C14", "first-match-selector-again", "deb/deb.go", "if found != nil {\n\t\t\treturn nil, fmt.Errorf(\"More than one .deb member '%s*'\", prefix)\n\t\t}\n\t\tfound = member", "return member, nil", "C14-DET"},
 	// C15
 	{"C15", "negative-size-accepted-again", "deb/ar.go", "if entry.Size < 0 {\n\t\treturn nil, fmt.Errorf(\"failed to parse entry Size: negative size %d\", entry.Size)\n\t}\n", "", "C15-OFFSET"},
+	{"C15", "truncated-member-returned-again", "deb/ar.go", "\tif entry.Size > 0 {\n\t\t// the last byte of the member has to be there, or Data would come up short\n\t\tlast := make([]byte, 1)\n\t\tif n, err := d.in.ReadAt(last, d.offset+int64(count)+entry.Size-1); n != 1 {\n\t\t\treturn nil, fmt.Errorf(\"ar member %q is cut short: %v\", entry.Name, err)\n\t\t}\n\t}\n", "", "C15-TRUNC"},
+	{"C13", "probe-one-past-the-data", "deb/ar.go", "d.in.ReadAt(last, d.offset+int64(count)+entry.Size-1); n != 1 {", "d.in.ReadAt(last, d.offset+int64(count)+entry.Size); n != 1 {", "C13-LAST"},
 	{"C15", "magic-and-again", "deb/ar.go", "if line[58] != 0x60 || line[59] != 0x0A {", "if line[58] != 0x60 && line[59] != 0x0A {", "C15-HDRMAGIC"},
 	// (removing the `count != 60` test of Ar.Next is an equivalent mutant under the io.ReaderAt contract, which the
 	// checks trust: n < len(p) comes with a non-nil error, and that error is returned first; it is not a control)
